@@ -56,6 +56,7 @@ class Unit:
     registry: Any = None
     allowed_raises: Any = None  # list of exception class names allowed to escape (None = not checked)
     all_params: bool = False  # parameters of the real signature that `params` does not list are symbolic too (not defaulted)
+    split_at: int = 0  # hand the exploration out to other processes once this many prefixes are pending (0 = the CLI default)
     native_script: str | None = None  # replay/units/<script>: native replay of a composed unit (args of ctx.args, concretised)
     may_always_raise: bool = False  # the unit is expected to have no normal-return path (vacuity guard off)
     max_paths: int = 4000
